@@ -290,6 +290,41 @@ pub fn project(env: &Env) -> Map<String, Value> {
         );
     }
     m.insert("pools".into(), Value::Object(pools));
+    let mut reserves = Map::new();
+    for (n, ri) in env.reserves.iter() {
+        use kamino_mocks::state::MinimalReserve;
+        if let Some(a) = env.world.get(&ri.reserve) {
+            let sz = std::mem::size_of::<MinimalReserve>();
+            if a.data.len() >= 8 + sz {
+                let r: MinimalReserve = bytemuck::pod_read_unaligned(&a.data[8..8 + sz]);
+                let u = |b: [u8; 16]| big_u(u128::from_le_bytes(b));
+                reserves.insert(
+                    n.clone(),
+                    json!({"mint": ri.mint_name, "dec": r.mint_decimals, "avail": big_u(r.available_amount as u128), "supply": big_u(r.mint_total_supply as u128),
+                           "borrowed_sf": u(r.borrowed_amount_sf), "protocol_sf": u(r.accumulated_protocol_fees_sf), "referrer_sf": u(r.accumulated_referrer_fees_sf),
+                           "pending_sf": u(r.pending_referrer_fees_sf), "slot": big_u(r.slot as u128), "vault": env.names.name(&ri.supply_vault),
+                           "owner_ok": a.owner == marginfi::constants::KAMINO_PROGRAM_ID}),
+                );
+            }
+        }
+    }
+    m.insert("reserves".into(), Value::Object(reserves));
+    // venue obligations (the banks' claims on the venue): any account of the venue program carrying the obligation discriminator
+    let mut obls = Map::new();
+    for (k, a) in env.world.accts.iter() {
+        use kamino_mocks::state::{MinimalObligation, OBLIGATION_DISCRIMINATOR};
+        let sz = std::mem::size_of::<MinimalObligation>();
+        if a.owner == marginfi::constants::KAMINO_PROGRAM_ID && a.data.len() >= 8 + sz && a.data[..8] == OBLIGATION_DISCRIMINATOR {
+            let o: MinimalObligation = bytemuck::pod_read_unaligned(&a.data[8..8 + sz]);
+            let others: u128 = o.deposits.iter().skip(1).map(|d| d.deposited_amount as u128).sum();
+            obls.insert(
+                env.names.name(k),
+                json!({"owner": env.names.name(&o.owner), "reserve": env.names.name(&o.deposits[0].deposit_reserve),
+                       "amount": big_u(o.deposits[0].deposited_amount as u128), "other_deposits": big_u(others)}),
+            );
+        }
+    }
+    m.insert("obligations".into(), Value::Object(obls));
     let mut mints = Map::new();
     for (n, mi) in env.mints.iter() {
         mints.insert(
